@@ -884,6 +884,7 @@ func (w *World) processRepoPackageOnce(p *packages.Package, imp types.Importer, 
 			"old":          "func old[T any](x T) T { return x }\n",
 			"forall":       "func forall(lo, hi int, p func(k int) bool) bool { for k := lo; k < hi; k++ { if !p(k) { return false } }; return true }\n",
 			"exists":       "func exists(lo, hi int, p func(k int) bool) bool { for k := lo; k < hi; k++ { if p(k) { return true } }; return false }\n",
+			"forallKeys":   "func forallKeys[V any](m map[string]V, p func(k string) bool) bool { for k := range m { if !p(k) { return false } }; return true }\n",
 			"vcIter":       "func vcIter() int { return 0 }\n",
 			"vcSame":       "func vcSame[T any](a, b T) bool { return fmt.Sprintf(\"%p\", any(a)) == fmt.Sprintf(\"%p\", any(b)) }\n",
 			"vcWriteCount": "func vcWriteCount() int { return 0 }\n",
